@@ -478,6 +478,8 @@ def run(ctx: Ctx, rep: Report, tier: str) -> None:  # noqa: C901
                     if isinstance(x, ast.Attribute) and x.attr in views and isinstance(x.ctx, ast.Store):
                         bt = ctx.types.expr_type(x.value, f)
                         if any(m[0] == "cls" and m[1].is_subclass_of(port) for m in ([bt] if bt[0] != "union" else bt[1])):
+                            if f.name == "__init__" and f.cls is not None and f.cls.is_subclass_of(port) and isinstance(n, (ast.Assign, ast.AnnAssign)) and isinstance(n.value, ast.Constant) and not n.value.value and _line_assigned_after(f, n):
+                                continue  # the constructor declares the empty view before it hands the text to the line setter
                             writers[x.attr].add(f.qualname)
             if isinstance(n, ast.Call) and isinstance(n.func, ast.Name) and n.func.id == "setattr" and len(n.args) >= 2:
                 nm = n.args[1]
@@ -528,6 +530,9 @@ def run(ctx: Ctx, rep: Report, tier: str) -> None:  # noqa: C901
     operand_range(ctx, rep)
     views_leave_judgement_to_reader(ctx, rep)
     codec_skips_nothing(ctx, rep)
+    rejected_leaves_unchanged(ctx, rep)
+    operands_are_a_set(ctx, rep)
+    empty_expression_writes_back(ctx, rep)
     rep.rule("R08.5")
     for nm in ("items", "ports", "sport", "protocol"):
         st = port.lookup_setter(nm)
@@ -550,6 +555,140 @@ def run(ctx: Ctx, rep: Report, tier: str) -> None:  # noqa: C901
             rep.ok(f"Port.{nm} setter", "every normal path re-enters the line setter (directly or through another view)", where=where(st))
         else:
             rep.violation(st.qualname, "normal path without self.line = ...", "a writable view can return without rebuilding the other views from text", where(st))
+
+
+def rejected_leaves_unchanged(ctx: Ctx, rep: Report, rid: str = "R08.13", targets=(("Port.line.setter", ("_operator",)),)) -> None:
+    """A port expression whose new text is refused stays what it was: the operator (which the operand readers consult) is
+    stored before the operands are validated, so every way an error can leave the setter after that store passes through
+    a statement that puts the old operator back (`old = self._operator` before, `self._operator = old` in the handler) -
+    otherwise `Port('eq 80').line = 'lt 1 2'` raises and leaves `lt 80` with the port set of `eq 80`."""
+    rep.rule(rid)
+    for q, attrs in targets:
+        f = ctx.prog.find_func(q)
+        if f is None:
+            rep.note(f"{rid} {q} not present - not judged")
+            continue
+        cfg = ctx.cfg(f)
+        dom = cfg.dominators()
+
+        def store_of(nd: Node, attr: str) -> Optional[ast.AST]:
+            if nd.kind == "stmt" and isinstance(nd.ast, (ast.Assign, ast.AnnAssign)) and getattr(nd.ast, "value", None) is not None:
+                for t in (nd.ast.targets if isinstance(nd.ast, ast.Assign) else [nd.ast.target]):
+                    if isinstance(t, ast.Attribute) and src(t.value) == "self" and t.attr == attr:
+                        return nd.ast.value
+            return None
+
+        def may_raise(nd: Node) -> bool:
+            if nd.ast is None or nd.kind not in ("stmt", "cond"):
+                return False
+            if isinstance(nd.ast, ast.Raise):
+                return True
+            return any(isinstance(c, ast.Call) and ctx.excs.call_raises(f, c) for c in ast.walk(nd.ast))
+
+        for attr in attrs:
+            stores = [nd for nd in cfg.live if store_of(nd, attr) is not None]
+            rep.instance()
+            rep.require(bool(stores), f"{q} no longer stores self.{attr}")
+            for st in stores:
+                # saved copies of the old value: v = self.attr at a node that dominates the store
+                saved = set()
+                for nd in cfg.live:
+                    if nd.kind == "stmt" and isinstance(nd.ast, (ast.Assign, ast.AnnAssign)) and getattr(nd.ast, "value", None) is not None and isinstance(nd.ast.value, ast.Attribute) and src(nd.ast.value) == f"self.{attr}" and nd in dom.get(st, set()):
+                        for t in (nd.ast.targets if isinstance(nd.ast, ast.Assign) else [nd.ast.target]):
+                            if isinstance(t, ast.Name):
+                                saved.add(t.id)
+                is_restore = lambda nd: (lambda v: isinstance(v, ast.Name) and v.id in saved)(store_of(nd, attr))  # noqa: E731
+                if is_restore(st):
+                    continue  # the statement that puts the old value back
+                after = [m for m in cfg.reachable(st, labels_avoid=("exc",)) if m is not st and may_raise(m)]
+                bad = None
+                for m in after:
+                    if isinstance(m.ast, ast.Raise):
+                        leaves = cfg.raise_exit in cfg.reachable(m, avoid=is_restore)
+                    else:
+                        handlers = m.succs("exc")
+                        leaves = not handlers or any(cfg.raise_exit in cfg.reachable(h_, avoid=is_restore) or (h_.ast is not None and getattr(h_.ast, "type", None) is not None and not _catches_value_errors(h_.ast)) for h_ in handlers)
+                    if leaves:
+                        bad = m
+                        break
+                rep.instance()
+                if bad is None:
+                    rep.ok(f"{q}: {snippet(st.ast, 40)}", f"no error leaves the setter after this store without self.{attr} being put back" if after else "nothing can raise after this store", where=where(f, st.ast))
+                else:
+                    rep.violation(q, f"{snippet(st.ast, 40)} ... {snippet(bad.ast, 40)}", f"self.{attr} is stored before the rest of the new text is validated, and an error raised afterwards leaves the setter without the old value being put back: the refused assignment leaves a hybrid - the new operator over the old operands, ports and range string (`lt 80` with the port set of `eq 80`), which the next write-back turns into another meaning", where(f, st.ast), inp="p = Port('eq 80', protocol='tcp'); p.line = 'lt 1 2'  # ValueError; p.line == 'lt www', p.sport == '80'")
+
+
+def operands_are_a_set(ctx: Ctx, rep: Report, rid: str = "R08.14") -> None:
+    """The operand list of the set-like operators (eq, neq) holds no port twice once it is parsed: the port list and the
+    range string are sets by construction (`string_to_ports` builds a set, neq is rebuilt from the complement), so a
+    repeated operand (`eq 80 80`, accepted) cannot come back from either view - `p.sport = p.sport` would turn the text
+    `eq www www` into `eq www`.  On every normal path of the operand reader on which the operator can be eq/neq the
+    returned list passes through a set construction."""
+    rep.rule(rid)
+    li = items_to_ints_func(ctx)
+    n = 0
+    for p in function_paths(ctx.cfg(li)):
+        if p.raises or p.ret is None:
+            continue
+        # paths on which the operator is known not to be eq/neq are not concerned
+        excluded = False
+        for test, truth in p.atoms:
+            t = deep_resolve(test, p.env)
+            if isinstance(t, ast.Compare) and len(t.ops) == 1 and isinstance(t.ops[0], ast.In) and "operator" in src(t.left):
+                v = ctx.folder.fold(t.comparators[0], li.module)
+                if known(v) and set(v) & {"eq", "neq"} and not truth:
+                    excluded = True
+                if known(v) and not set(v) & {"eq", "neq"} and truth:
+                    excluded = True
+            if isinstance(t, ast.Compare) and len(t.ops) == 1 and isinstance(t.ops[0], ast.Eq) and "operator" in src(t.left) and isinstance(t.comparators[0], ast.Constant) and t.comparators[0].value not in ("eq", "neq") and truth:
+                excluded = True
+        if excluded:
+            continue
+        n += 1
+        rep.instance()
+        r = deep_resolve(p.ret, p.env)
+        dedup = any((isinstance(x, ast.Call) and src(x.func) in ("set", "frozenset", "dict.fromkeys")) or isinstance(x, (ast.SetComp, ast.Set)) for x in ast.walk(r))
+        atoms = "; ".join(f"{snippet(t, 30)}={'T' if tr else 'F'}" for t, tr in p.atoms[-3:])
+        if dedup:
+            rep.ok(f"{li.qualname}: path [{atoms}]", "the operands of eq/neq pass through a set: no port twice", where=where(li))
+        else:
+            rep.violation(li.qualname, f"path [{atoms}] returns {snippet(p.ret, 40)}", "a repeated operand of eq/neq is kept in the operand list, but neither the port list nor the range string can hold a port twice: assigning the expression's own ports or range string back rewrites its text (`eq www www` -> `eq www`) and items", where(li), inp="p = Port('eq 80 80', protocol='tcp'); p.sport = p.sport; p.line == 'eq www'")
+            break
+    if n == 0:
+        rep.note(f"{rid} no normal eq/neq path recognised in {li.qualname} - not judged")
+
+
+def empty_expression_writes_back(ctx: Ctx, rep: Report, rid: str = "R08.15") -> None:
+    """The empty expression (every entry without ports has two) takes its own port list and range string back: the
+    inverse reader has a normal path for "no operator, no ports" - else `ace.srcport.ports = ace.srcport.ports` raises."""
+    rep.rule(rid)
+    inv = ctx.func("Port._ports_to_items")
+    rep.instance()
+    param = inv.params[1]
+    val = ctx.folder.eval_body(inv, {"self._operator": "", "self.operator": "", param: []})
+    from ..fold import RaisesValue
+
+    if isinstance(val, RaisesValue):
+        rep.violation(inv.qualname, f"operator '' and {param} [] -> raises {val.exc_name}", "the empty port expression refuses its own (empty) port list and range string: `p.ports = p.ports` and `p.sport = p.sport` raise on the source-port object of every entry without ports", where(inv), inp="p = Ace('permit ip any any').srcport; p.ports = p.ports")
+    elif val == []:
+        rep.ok(f"{inv.qualname}: operator '' / no ports", "gives no items", where=where(inv))
+    else:
+        rep.note(f"{rid} {inv.qualname} on the empty expression could not be evaluated ({val!r}) - not judged")
+
+
+def _line_assigned_after(f: Func, st: ast.AST) -> bool:
+    """In the body of f, `self.line = ...` stands after statement st (same block): what st stored is overwritten."""
+    body = f.node.body
+    if st not in body:
+        return False
+    return any(isinstance(y, ast.Assign) and any(isinstance(t, ast.Attribute) and src(t) == "self.line" for t in y.targets) for y in body[body.index(st) + 1 :])
+
+
+def _catches_value_errors(h_: ast.ExceptHandler) -> bool:
+    from ..cfg import handler_classes
+
+    cs = handler_classes(h_)
+    return not cs or any(c in ("ValueError", "Exception", "BaseException") for c in cs)
 
 
 def views_leave_judgement_to_reader(ctx: Ctx, rep: Report, rid: str = "R08.11") -> None:
